@@ -1015,7 +1015,7 @@ pub fn check_c20(cfg: &RunCfg, _findings: &Findings) -> Report {
   let mut rep = Report::new(
     "C20",
     "fault_enumeration",
-    "case = (layout, key history, schedule) x index k of the driver call (register_poll, poll, next_keyboard, next_tablet or send) that fails with a unique marker: every k up to 256 calls, a generated quarter beyond; oracle = the loop returns an error carrying the marker, makes no further driver call, and the writes before the fault are a prefix of the fault-free run's writes; evaluations = injected faults; non-trivial = a fault that hits after at least one successful write; distinct = hash of (layout, script, k)",
+    "case = (layout, key history, schedule) x index k of the driver call (register_poll, poll, next_keyboard, next_tablet or send) that fails with a unique marker: every k up to 256 calls, a generated quarter beyond; oracle = the loop returns an error carrying the marker, writes nothing to the virtual keyboard after the failed call (later reads are answered normally; more than 256 further calls count as not stopping), and the writes before the fault are a prefix of the fault-free run's writes; evaluations = injected faults; non-trivial = a fault that hits after at least one successful write; distinct = hash of (layout, script, k)",
   );
   let quick = cfg.tier == Tier::Quick;
   let run = |c: &LoopCase| -> Result<(), Violation> { run_c20_case(c, None, None).map(|_| ()) };
